@@ -703,3 +703,26 @@ package graphql
 //@   loop 1 invariant typeNames == nil || fresh(typeNames)
 //@   loop[C12] 2 ordered
 //@   loop[C12] 2 invariant sortedflag(typeNames) && fresh(results)
+
+// ---- structural fingerprint: everything that can change the response participates in the key (C06) ----
+
+//@ func fingerprintDocument
+//@   props C06
+//@   nosafety
+//@   reads ast.OperationDefinition.Operation, ast.OperationDefinition.VariableDefinitions, ast.OperationDefinition.Directives, ast.OperationDefinition.SelectionSet
+//@   reads ast.VariableDefinition.Variable, ast.VariableDefinition.Type, ast.VariableDefinition.DefaultValue
+//@   reads ast.Field.Alias, ast.Field.Name, ast.Field.Arguments, ast.Field.Directives, ast.Field.SelectionSet
+//@   reads ast.InlineFragment.TypeCondition, ast.InlineFragment.Directives, ast.InlineFragment.SelectionSet
+//@   reads ast.FragmentSpread.Name, ast.FragmentSpread.Directives
+//@   reads ast.FragmentDefinition.TypeCondition, ast.FragmentDefinition.Directives, ast.FragmentDefinition.SelectionSet
+//@   reads ast.Directive.Name, ast.Directive.Arguments, ast.Argument.Name, ast.Argument.Value
+//@   reads ast.Variable.Name, ast.IntValue.Value, ast.FloatValue.Value, ast.StringValue.Value, ast.BooleanValue.Value, ast.EnumValue.Value, ast.ListValue.Values, ast.ObjectValue.Fields, ast.ObjectField.Name, ast.ObjectField.Value
+
+// Each field selection contributes its alias AND its name; every spread hashes the fragment body.
+//@ func fingerprintWriter.writeSelectionSet
+//@   props C06 C13
+//@   nosafety
+//@   opt invoke.Write=pure
+//@   loop 1 ensures typeis(isel, "*ast.Field") && as(isel, "*ast.Field").Alias != nil && as(isel, "*ast.Field").Name != nil ==> calls("writeString") >= atloop(1, calls("writeString")) + 2
+//@   loop 1 ensures typeis(isel, "*ast.FragmentSpread") && as(isel, "*ast.FragmentSpread").Name != nil ==> calls("writeFragmentBody") == atloop(1, calls("writeFragmentBody")) + 1
+//@   at call writeFragmentBody: assert arg1 == s.Name.Value
